@@ -22,7 +22,7 @@ from pyvc import run as RUN  # noqa
 from pyvc import lemmas as LEM  # noqa
 import pyvc.pandas_model  # noqa  (registers the assumed pandas contracts)
 
-CONTRACT_MODULES = ['filter_utils', 'generic_helper', 'validation', 'profiler', 'missing_value_handler', 'externals', 'token_ordering', 'position', 'set_sim_join', 'join_drivers', 'overlap', 'candset', 'size', 'matcher', 'ovcoeff', 'prefix', 'editdist']
+CONTRACT_MODULES = ['filter_utils', 'generic_helper', 'validation', 'profiler', 'missing_value_handler', 'externals', 'token_ordering', 'position', 'position_build', 'set_sim_join', 'join_drivers', 'overlap', 'candset', 'size', 'matcher', 'ovcoeff', 'prefix', 'editdist', 'prefix_tables', 'position_tables']
 
 
 def load_contracts():
@@ -292,7 +292,22 @@ def check_property(pid, tier='quick', seed=0):
         if m_:
             btargets.append(dict(fn=m_.group(1), case=m_.group(2)))
     btargets += [dict(x) for x in spec.get('bounded_extra', [])]
+    if tier == 'thorough':
+        # conformance run: the executable contract of every API function of this property that has one is
+        # evaluated on the real code (also exercises the assumed pandas / tokenizer / lemma layer)
+        have = set(t['fn'] for t in btargets)
+        for q in quals:
+            if q in have:
+                continue
+            names = [cs.name for cs in REGISTRY[q].cases if cs.status == 'verified' and 'not-a-' not in cs.name][:2]
+            for nm in names:
+                btargets.append(dict(fn=q, case=nm, conformance=True))
     bounded_results = run_bounded(btargets, tier, seed)
+    conf = set((t['fn'], t.get('case')) for t in btargets if t.get('conformance'))
+    bounded_results = [b for b in bounded_results
+                       if not (b.get('error') == 'no executable oracle' and (b['fn'], b.get('case')) in conf)]
+    for b in bounded_results:
+        b['kind'] = 'conformance' if (b['fn'], b.get('case')) in conf else 'bounded-standin'
     failing = [r for r in all_results if r['status'] != 'unsat'] + undecided
     failing.sort(key=lambda r: 0 if r['status'] == 'sat' else 1)      # a refutation speaks for all same-named obligations
     n_obl = len(all_results) + len(undecided)
@@ -397,7 +412,7 @@ def check_property(pid, tier='quick', seed=0):
                             lemmas=[dict(name=r['name'], status=r['status'], secs=r['secs']) for r in lemma_results],
                             undischarged=[dict(name=r['name'], status=r['status']) for r in failing],
                             known_findings_hit=known_hit,
-                            bounded_standins=[dict(contract=b['fn'], case=b['case'], cases_run=b.get('cases_run', 0),
+                            bounded_standins=[dict(contract=b['fn'], case=b['case'], kind=b.get('kind'), cases_run=b.get('cases_run', 0),
                                                    failures=len(b.get('failures', [])), secs=b.get('secs'),
                                                    scope_exhausted=b.get('generator_exhausted'))
                                               for b in bounded_results],
